@@ -203,7 +203,7 @@ def run_apalache(module, deps=(), init="Init", inv="Inv", next_="Next", length=1
     if cinit:
         cmd.append("--cinit=" + cinit)
     cmd.append(module + ".tla")
-    env = dict(os.environ, JAVA_TOOL_OPTIONS="-Djava.io.tmpdir=" + d, HOME=d)     # no statistics prompt, no files outside the scratch copy
+    env = dict(os.environ, JAVA_TOOL_OPTIONS="-Djava.io.tmpdir=" + d, HOME=d, TMPDIR=d)     # the launcher makes its SANY directory with mktemp -t: TMPDIR keeps it in the scratch copy     # no statistics prompt, no files outside the scratch copy
     try:
         p = subprocess.run(cmd, cwd=d, capture_output=True, text=True, timeout=timeout, env=env)
     except subprocess.TimeoutExpired:
